@@ -167,7 +167,7 @@ def _init_unproved():
 
 _init_unproved()
 NAME_MODES = ['str', 'int0', 'empty0', 'person', 'tuple']
-REQUIRED_COUNTERS = (['score_fraction_counts', 'score_large_factor', 'scale', 'near_tie', 'equal_rational', 'beyond_2^53', 'modelled', 'qd_options', 'qd_policy_subtract', 'qd_prev_gains', 'qd_caps', 'ha_options', 'ha_prev_gains', 'ha_caps', 'ha_prev_at_least_votes',
+REQUIRED_COUNTERS = (['score_fraction_counts', 'score_large_factor', 'scale', 'near_tie', 'equal_rational', 'beyond_2^53', 'modelled', 'qd_options', 'qd_policy_subtract', 'qd_prev_gains', 'qd_caps', 'ha_options', 'ha_prev_gains', 'ha_caps', 'ha_prev_at_least_votes', 'equal_quotients_three_or_more',
                       'lr_equal_remainders', 'pure_total_below_one', 'approval_later_seat_level', 'threshold_boundary', 'coef_tie', 'coef_as_decimal', 'coef_as_float', 'exact_half_or_quota', 'odd_total_half', 'even_factor']
                      + ['m:' + f for f in PROVED_FAMILIES])      # every proved family is also run through its Lean model
 RULE = ('every scale-free evaluator family of the quantifier (plurality, divisor methods, largest remainder with exact quotas, '
@@ -418,6 +418,25 @@ def generate(rng, tier):
         x = rng.randint(1, 10 ** rng.choice([1, 5, 20, 30]))
         d = rng.choice([2, 3, 4, 6])
         yield {'op': 'equal_rational', 'x': str(x), 'd': d, '_tags': ['equal_rational']}
+    # THREE OR MORE equal rational quotients at the last seats of a divisor method: party i holds votes q * d(m_i - 1) (its m_i-th
+    # divisor), so every party reaches the quotient q at the same time; with r < g seats left all g parties must be named in the tie,
+    # at every magnitude of q (a scan that looks at r + 1 quotients only, or a float comparison, names too few)
+    for t in range(40 if tier == 'quick' else 600):
+        div = rng.choice(['d_hondt', 'sainte_lague'])
+        g = rng.randint(3, 5)
+        ms = rng.sample(range(1, 7), g)
+        q = Fraction(rng.choice([1, 7, 100, 10 ** 18 + 3, 10 ** 30 + 7]), rng.choice([1, 1, 3, 7]))
+        r = rng.randint(1, g - 2)
+        k = (MULTIPLIERS + [1])[t % (len(MULTIPLIERS) + 1)]
+        yield {'op': 'equal_quotients', 'divisor': div, 'ms': ms, 'q': num_str(q * k), 'r': r,
+               '_tags': ['equal_rational', 'equal_quotients_three_or_more'] + (['beyond_2^53'] if q * k > 2 ** 53 else [])}
+
+
+def _equal_quotients(case):
+    d = (lambda j: j + 1) if case['divisor'] == 'd_hondt' else (lambda j: 2 * j + 1)
+    q = Fraction(case['q'])
+    votes = [(i, q * d(m - 1)) for i, m in enumerate(case['ms'])]
+    return votes, sum(m - 1 for m in case['ms']) + case['r']
 
 
 def impl(case):
@@ -475,6 +494,11 @@ def impl(case):
         items = [('a', v + 1), ('b', v)] if case['first'] else [('b', v), ('a', v + 1)]
         nm = Names(['a', 'b'])
         return guarded(lambda: enc_selection(vc.get_n_best(dict(items), 1), nm))
+    if case['op'] == 'equal_quotients':
+        import votelib.evaluate.proportional as vp
+        votes, n = _equal_quotients(case)
+        return guarded(lambda: enc_distribution(vp.HighestAverages(case['divisor']).evaluate(
+            {NAMES.n(i): (int(v) if v.denominator == 1 else v) for i, v in votes}, n), NAMES))
     if case['op'] == 'equal_rational':
         x, d = int(case['x']), case['d']
         nm = Names(['a', 'b'])
@@ -519,6 +543,13 @@ def oracle(case, obs):
     elif case['op'] == 'near_tie':
         if obs != [0]:
             out.append(('near_tie_treated_as_tie', str(obs)))
+    elif case['op'] == 'equal_quotients':
+        g = len(case['ms'])
+        exp = sorted([[i, m - 1] for i, m in enumerate(case['ms']) if m > 1] + [[{'tie': list(range(g))}, case['r']]], key=lambda p: json.dumps(p[0], sort_keys=True))
+        got = obs if isinstance(obs, dict) else sorted(canon(obs), key=lambda p: json.dumps(p[0], sort_keys=True))
+        if got != exp:
+            out.append(('equal_rationals_not_tied', f"{g} parties reach the same quotient {case['q']} for the last {case['r']} seat(s): expected "
+                                                    f'{json.dumps(exp)}, got {json.dumps(got)}'))
     elif case['op'] == 'equal_rational':
         if canon(obs) != [{'tie': [0, 1]}]:
             out.append(('equal_rationals_not_tied', str(obs)))
@@ -622,6 +653,9 @@ def model_line(case):
         v = Fraction(case['v'])
         items = [[0, num_str(v + 1)], [1, num_str(v)]]
         return {'op': 'get_n_best', 'n': 1, 'votes': items if case['first'] else items[::-1]}
+    if case['op'] == 'equal_quotients':
+        votes, n = _equal_quotients(case)
+        return {'op': 'ha', 'divisor': case['divisor'], 'first_coef': None, 'votes': [[i, num_str(v)] for i, v in votes], 'n': n, 'prev': [], 'max': []}
     if case['op'] == 'equal_rational':
         x, d = int(case['x']), case['d']
         return {'op': 'get_n_best', 'n': 1, 'votes': [[0, num_str(Fraction(2 * x, 2 * d))], [1, num_str(Fraction(x, d))]]}
@@ -665,7 +699,7 @@ def compare(case, iobs, mobs):
         if a != b:
             return f'impl={json.dumps(a)} model={json.dumps(b)} (runs of equal value sorted)'
         return None
-    if case['op'] in ('scale_qd', 'scale_ha') or (case['op'] == 'scale' and case['family'].startswith(DIST_FAMILIES)):
+    if case['op'] in ('scale_qd', 'scale_ha', 'equal_quotients') or (case['op'] == 'scale' and case['family'].startswith(DIST_FAMILIES)):
         a, b = canon(got), canon_dist(mobs)
     else:
         a, b = canon(got), canon(mobs)
